@@ -412,7 +412,7 @@ func (c *Client) CommitCtx(ctx context.Context) string {
 	st := c.txn
 	err := st.txn.Commit(ctx)
 	if err != nil && os.Getenv("HUB_DEBUG_COMMIT") != "" {
-		fmt.Fprintf(os.Stderr, "commit of %d: ctxErr=%v err=%+v\n", st.startTS, ctx.Err(), err)
+		fmt.Fprintf(os.Stderr, "case %d commit of %d: ctxErr=%v undeterminedErr=%v err=%v\n", c.w.rec.Cases(), st.startTS, ctx.Err(), transaction.VerifUndeterminedErr(st.txn), err)
 	}
 	res := ""
 	switch cl := Classify(err); cl {
